@@ -943,7 +943,7 @@ func PutExpression(expr Expression) {
 				workQueue = append(workQueue, e.Expr)
 			}
 			e.Expr = nil
-			e.Operator = 0 // UnaryOperator is int type
+			e.Operator = 0         // UnaryOperator is int type
 			*e = UnaryExpression{} // every other field back to its zero value
 			unaryExprPool.Put(e)
 
@@ -1225,7 +1225,7 @@ func PutArraySubscriptExpression(ase *ArraySubscriptExpression) {
 			PutExpression(ase.Indices[i])
 		}
 	}
-	ase.Indices = ase.Indices[:0] // Clear slice but keep capacity
+	ase.Indices = ase.Indices[:0]     // Clear slice but keep capacity
 	*ase = ArraySubscriptExpression{} // every other field back to its zero value
 	arraySubscriptExprPool.Put(ase)
 }
